@@ -407,6 +407,7 @@ class ExecMixin(object):
         z = fresh('hv!' + name, sort_of(sv.ty))
         if is_reflike(sv.ty):
             st.assume(z3.And(z >= 0, z < st.alloc + st.nalloc))
+            self.coll_fact(st, sv.ty, z)
         return SV(sv.ty, z)
 
     def havoc_locs(self, st, ctx, specs, tag='hv'):
@@ -525,7 +526,7 @@ class ExecMixin(object):
                 if key[0] in ('elems', 'dval'):
                     st.havoc_vals = st.havoc_vals + [(v, st.alloc + st.nalloc)]
 
-    def frame_goal(self, before, after, locs):
+    def frame_goal(self, before, after, locs, limit=None):
         """Everything outside `locs` that existed in `before` is unchanged in `after`.
         The universally quantified reference is skolemised, so the goal is quantifier free."""
         conj = []
@@ -533,7 +534,8 @@ class ExecMixin(object):
         by_key = {}
         for key, ref in locs:
             by_key.setdefault(key, []).append(ref)
-        limit = before.alloc + before.nalloc
+        if limit is None:
+            limit = before.alloc + before.nalloc
         for key in sorted(keys, key=E.key_name):
             a0, a1 = before.hget(key), after.hget(key)
             if a0.eq(a1):
@@ -555,6 +557,19 @@ class ExecMixin(object):
                 raise Unsupported('loop %d invariant %r: %s' % (k, inv, ex))
             self.emit(ctx, st, 'inv.' + phase, 'loop%d.%d' % (k, i), g, note=inv)
 
+    def check_steps(self, ctx, st, spec, k, snapshot):
+        """step contract of the loop: each clause relates the state at the start of an arbitrary iteration (old(..),
+        evaluated in `snapshot`, locals included) to the state at its end"""
+        if not getattr(spec, 'steps', None):
+            return
+        sctx = self.spec_ctx(ctx, old_state=snapshot, bound=ctx.bound)
+        for i, clause in enumerate(spec.steps):
+            try:
+                g = self.spec_bool(clause, st, sctx)
+            except Unsupported as ex:
+                raise Unsupported('loop %d step clause %r: %s' % (k, clause, ex))
+            self.emit(ctx, st, 'step', 'loop%d.%d' % (k, i), g, note=clause)
+
     def assume_invariants(self, ctx, st, spec, k, entry_state):
         sctx = self.spec_ctx(ctx, old_state=entry_state, bound=ctx.bound)
         for inv in spec.invariants:
@@ -570,6 +585,12 @@ class ExecMixin(object):
         self.check_invariants(ctx, st, spec, k, 'init', entry_state)
         # 2. havoc
         hv = st.fork()
+        loop_limit = st.alloc + st.nalloc          # everything below existed when the loop was entered
+        # earlier iterations may have allocated objects: the allocation counter moves to an unknown later point
+        na = fresh('alloc', z3.IntSort())
+        hv.assume(na >= st.alloc + st.nalloc)
+        hv.alloc = na
+        hv.nalloc = 0
         names = self.assigned_names(body) + list(extra_names)
         for n in names:
             if n in hv.locals:
@@ -594,13 +615,14 @@ class ExecMixin(object):
                         continue
                     if flow is not None and flow[0] == 'break':
                         # frame of the partial iteration
-                        for key, goal in self.frame_goal(snapshot, b_st, locs):
+                        for key, goal in self.frame_goal(snapshot, b_st, locs, limit=loop_limit):
                             self.emit(ctx, b_st, 'frame', 'loop%d.%s' % (k, E.key_name(key)), goal)
                         yield b_st, None
                         continue
                     for a_st in after_body_fn(b_st):
+                        self.check_steps(ctx, a_st, spec, k, snapshot)
                         self.check_invariants(ctx, a_st, spec, k, 'keep', entry_state)
-                        for key, goal in self.frame_goal(snapshot, a_st, locs):
+                        for key, goal in self.frame_goal(snapshot, a_st, locs, limit=loop_limit):
                             self.emit(ctx, a_st, 'frame', 'loop%d.%s' % (k, E.key_name(key)), goal)
             if self.feasible(s_out):
                 if orelse:
@@ -723,7 +745,7 @@ class ExecMixin(object):
             extra = ['0 <= %s and %s <= %sn' % (iv, iv, iv)]
         elif kind == 'range':
             extra = ['%slo <= %s and (%s <= %shi or %s == %slo)' % (iv, iv, iv, iv, iv, iv)]
-        return Loop(invariants=extra + list(spec.invariants), modifies=spec.modifies, locals=spec.locals)
+        return Loop(invariants=extra + list(spec.invariants), modifies=spec.modifies, locals=spec.locals, steps=spec.steps)
 
     def iter_source(self, ctx, st, seq):
         if isinstance(seq.ty, Ref):
